@@ -41,6 +41,10 @@ def nal_body(rng, n, fill=None):
 
 def h264_key(rng, sps_len=None, pps_len=None, slice_len=None, sc=None, extra=True):
     sc = sc or (lambda: rng.choice([SC3, SC4]))
+    if sps_len is None and extra and rng.random() < 0.06:
+        sps_len = rng.randrange(0, 3)      # an SPS of 1-3 bytes: shorter than the profile/level bytes avcC copies
+    if pps_len is None and extra and rng.random() < 0.04:
+        pps_len = 0
     sps = bytes([0x67]) + nal_body(rng, sps_len if sps_len is not None else rng.randrange(3, 12))
     pps = bytes([0x68]) + nal_body(rng, pps_len if pps_len is not None else rng.randrange(1, 5))
     idr = bytes([0x65]) + nal_body(rng, slice_len if slice_len is not None else rng.randrange(1, 40))
@@ -60,9 +64,10 @@ def h264_delta(rng, n=None, sc=None):
 
 def h265_key(rng, sc=None):
     sc = sc or (lambda: rng.choice([SC3, SC4]))
-    vps = bytes([0x40, 0x01]) + nal_body(rng, rng.randrange(2, 8))
-    sps = bytes([0x42, 0x01]) + nal_body(rng, rng.randrange(2, 20))
-    pps = bytes([0x44, 0x01]) + nal_body(rng, rng.randrange(1, 5))
+    short = rng.random() < 0.06           # parameter sets that consist of little more than their 2-byte header
+    vps = bytes([0x40, 0x01]) + nal_body(rng, rng.randrange(0, 2) if short else rng.randrange(2, 8))
+    sps = bytes([0x42, 0x01]) + nal_body(rng, rng.randrange(0, 2) if short else rng.randrange(2, 20))
+    pps = bytes([0x44, 0x01]) + nal_body(rng, rng.randrange(0, 2) if short else rng.randrange(1, 5))
     idr = bytes([0x26, 0x01]) + nal_body(rng, rng.randrange(1, 40))
     return b"".join(sc() + p for p in [vps, sps, pps, idr])
 
@@ -208,7 +213,8 @@ def gen_history(rng, dist, codec=None, audio=None, fast=None, md=None, nv=None, 
     nv = rng.randrange(0, 12) if nv is None else nv
     na = (rng.randrange(0, 12) if audio != "none" else 0) if na is None else na
     step = rng.choice(FPS_GRIDS)
-    t0 = rng.choice([0.0, 0.0, 1.0, 3600.0, 0.5]) if start is None else start
+    # 47721.858 s = 2^32 ticks of the 90 kHz clock: uptime-clock timestamps and streams that cross it
+    t0 = rng.choice([0.0, 0.0, 0.0, 1.0, 3600.0, 0.5, 47721.8, 47721.85, 50400.0, 1.0e6]) if start is None else start
     reorder = (rng.random() < 0.35) if reorder is None else reorder
     # decode-order video frames
     vops = []
@@ -401,27 +407,31 @@ def small_exhaustive_histories(rng, dist, limit):
     d1 = SC4 + bytes([0x41, 0xA1, 0xA2])
     d2 = SC3 + bytes([0x41, 0xB1])
     aframes = [adts(random.Random(6), payload=bytes([0xC1, 0xC2, 0xC3])), adts(random.Random(7), payload=bytes([0xD1]))]
-    for nv in (1, 2, 3):
+    d3 = SC3 + bytes([0x41, 0xC1, 0xC2, 0xC3])
+    for nv in (1, 2, 3, 4):
         for ptsperm in itertools.permutations(range(nv)):
             for na in (0, 1, 2):
                 for a0 in (0.0, 1 / 30, 0.1):
                     for fast in (0, 1):
-                        dts = grid[:nv]
-                        pts = [grid[ptsperm[i]] for i in range(nv)]
-                        frames = [key, d1, d2][:nv]
-                        ops = []
-                        for i in range(nv):
-                            ops.append("wvd %s %s %s %d" % (f64bits(pts[i] + 0.1), f64bits(dts[i]), hx(frames[i]), 1 if i == 0 else 0))
-                        for j in range(na):
-                            ops.append("wa %s %s" % (f64bits(0.1 + a0 + j * 0.02), hx(aframes[j])))
-                        ops.append("fins")
-                        out.append(pcase(cfg_str(audio="aac-lc" if na else rng.choice(["none", "aac-lc"]), fast=fast), ops))
+                        # shift 0.1: every pts >= dts (the usual encoder delay); shift 0: un-shifted decode
+                        # times, composition offsets of both signs (deep reordering / B-pyramids)
+                        for shift in (0.1, 0.0):
+                            dts = grid[:nv]
+                            pts = [grid[ptsperm[i]] for i in range(nv)]
+                            frames = [key, d1, d2, d3][:nv]
+                            ops = []
+                            for i in range(nv):
+                                ops.append("wvd %s %s %s %d" % (f64bits(pts[i] + shift), f64bits(dts[i]), hx(frames[i]), 1 if i == 0 else 0))
+                            for j in range(na):
+                                ops.append("wa %s %s" % (f64bits(shift + a0 + j * 0.02), hx(aframes[j])))
+                            ops.append("fins")
+                            out.append(pcase(cfg_str(audio="aac-lc" if na else rng.choice(["none", "aac-lc"]), fast=fast), ops))
     rng.shuffle(out)
     dist["small_exhaustive"] += min(limit, len(out))
     return out[:limit]
 
 
-def smallscope_histories(tier, dist, extra="", maxlen=None, finish="fins"):
+def smallscope_histories(tier, dist, extra="", maxlen=None, finish="fins", cfgs=None):
     """Small-scope exhaustive call sequences: EVERY sequence of length <= L over an alphabet of
     accepted, refused and boundary calls, for three configurations. Timestamps come from a clock that
     advances only on calls the muxer should accept, so a refused call that leaves a trace (a stale
@@ -429,13 +439,14 @@ def smallscope_histories(tier, dist, extra="", maxlen=None, finish="fins"):
     call does. State-leak regressions need two or three specific calls in a row; this enumerates them."""
     L = maxlen or (4 if tier == "quick" else 5)
     r5 = random.Random(55)
-    cfgs = [("h264", "aac-lc", 1), ("h264", "aac-lc", 0), ("vp9", "opus", 1)]
+    cfgs = cfgs or [("h264", "aac-lc", 1), ("h264", "aac-lc", 0), ("vp9", "opus", 1)]
     alphabet = ["V+", "V=", "Vbad", "Vd", "Vk2", "A+", "A=", "Abad", "A-", "F"]
     out = []
     for codec, audio, fast in cfgs:
-        key1 = {"h264": h264_key(r5, extra=False), "vp9": vp9_key(r5)}[codec]
-        key2 = {"h264": h264_key(r5, extra=False), "vp9": vp9_key(r5)}[codec]      # other parameter sets
-        dl = {"h264": h264_delta(r5, n=3), "vp9": vp9_delta(r5)}[codec]
+        mk = {"h264": lambda: h264_key(r5, extra=False), "vp9": lambda: vp9_key(r5), "h265": lambda: h265_key(r5), "av1": lambda: av1_key(r5)}[codec]
+        key1 = mk()
+        key2 = mk()                                                                   # other parameter sets
+        dl = {"h264": lambda: h264_delta(r5, n=3), "vp9": lambda: vp9_delta(r5), "h265": lambda: h265_delta(r5), "av1": lambda: av1_delta(r5)}[codec]()
         af = [audio_frame(r5, audio) for _ in range(3)]
         abad = b"\x03" if audio == "opus" else b"\xff\xf1\x50\x80\x00\x1f"
         cfg = cfg_str(codec=codec, audio=audio, fast=fast) + ((" " + extra) if extra else "")
@@ -476,7 +487,7 @@ def smallscope_histories(tier, dist, extra="", maxlen=None, finish="fins"):
 
 
 def gen_C01(rng, tier, dist):
-    return small_exhaustive_histories(rng, dist, 200 if tier == "quick" else 100000) + \
+    return small_exhaustive_histories(rng, dist, 100000) + \
         gen_hist_cases(rng, tier, dist, 500, 30000, rejects=0.1) + smallscope_histories(tier, dist)
 
 
@@ -541,7 +552,7 @@ def f64_palette_cases(rng, tier, dist):
 
 
 def gen_C15(rng, tier, dist):
-    return small_exhaustive_histories(rng, dist, 150 if tier == "quick" else 100000) + \
+    return small_exhaustive_histories(rng, dist, 100000) + \
         gen_hist_cases(rng, tier, dist, 500, 30000, audio=None)
 
 
@@ -568,7 +579,10 @@ def gen_C06(rng, tier, dist):
             k = rng.choice([0, 1, 7, 8, 23, 24, 31, 32, 39, 40]) if rng.random() < 0.4 else rng.randrange(0, 1600)
             pol = rng.choice(["failonce:%d:%d" % (k, rng.randrange(17)), "failonce:%d:%d" % (k, rng.randrange(17)),
                               "failat:%d:%d" % (k, rng.randrange(17)), "zeroat:%d" % k,
-                              "cap:%d+failonce:%d:%d" % (rng.choice([1, 3, 100]), k, rng.randrange(17))])
+                              "cap:%d+failonce:%d:%d" % (rng.choice([1, 3, 100]), k, rng.randrange(17)),
+                              # sinks that only shorten or interrupt writes: the finish must still deliver the complete file
+                              "cap:%d" % rng.choice([1, 3, 7, 64]), "cap:%d" % rng.choice([1, 3, 7, 64]),
+                              "cap:%d+intr:%d,%d" % (rng.choice([2, 5]), rng.randrange(0, 40), rng.randrange(40, 900))])
             cfg += " sink=" + pol
             ops.append(rng.choice(fins[:2]))
             ops.append(rng.choice(fins[:2]))
@@ -601,7 +615,10 @@ def gen_C18(rng, tier, dist):
         if rng.random() < 0.1:
             md = dict(md=0)
         cfg, ops, info = gen_history(rng, dist, md=md, nv=rng.randrange(0, 4), na=rng.randrange(0, 3))
-        out.append(pcase(cfg + " twin=nometa", ops))
+        # the same configuration reached through the builder's setters (alone, in either order) or through a Metadata value
+        path = rng.choice(["", "", " path=set", " path=setonly", " path=setonly", " path=setrev"])
+        dist["builder_path=" + (path.strip() or "with_metadata")] += 1
+        out.append(pcase(cfg + " twin=nometa" + path, ops))
         dist["title=%s" % ("none" if title is None else "len%d" % min(len(title), 999))] += 1
         dist["lang=%s" % ("none" if lang is None else "wellformed" if len(lang) == 3 and lang.islower() and lang.isalpha() else "malformed")] += 1
     # every day boundary of a sample of years incl. all leap-year cases
@@ -1056,7 +1073,9 @@ def av1_keyframe_from(rng, dist, force=None):
 
 
 def gen_C07(rng, tier, dist):
-    out = []
+    # the configuration must be that of the first ACCEPTED key frame, whatever was refused before it
+    out = smallscope_histories(tier, dist, maxlen=3 if tier == "quick" else 4,
+                               cfgs=[("h264", "aac-lc", 1), ("h265", "opus", 0), ("av1", "aac-lc", 1), ("vp9", "opus", 0)])
     n = 1500 if tier == "quick" else 100000
     for _ in range(n):
         codec = rng.choice(VCODECS)
@@ -1070,14 +1089,14 @@ def gen_C07(rng, tier, dist):
             types = [7, 8, 5] + [rng.choice([7, 8, 6, 9, 1, 5]) for _ in range(nn - 3)]
             rng.shuffle(types)
             for t in types:
-                parts.append(rng.choice([SC3, SC4]) + bytes([0x60 | t]) + nal_body(rng, rng.choice([0, 1, 3, 20, 300])))
+                parts.append(rng.choice([SC3, SC4]) + bytes([0x60 | t]) + nal_body(rng, rng.choice([0, 1, 2, 3, 4, 20, 300])))
             key = bytes(rng.choice([0, 0, 0xFF]) for _ in range(rng.randrange(0, 3) if rng.random() < 0.2 else 0)) + b"".join(parts) + bytes(rng.randrange(0, 3))
         elif codec == "h265":
             parts = []
             types = [32, 33, 34, 19] + [rng.choice([32, 33, 34, 39, 1, 20]) for _ in range(rng.randrange(0, 5))]
             rng.shuffle(types)
             for t in types:
-                parts.append(rng.choice([SC3, SC4]) + bytes([t << 1, 1]) + nal_body(rng, rng.choice([0, 2, 13, 20, 300])))
+                parts.append(rng.choice([SC3, SC4]) + bytes([t << 1, 1]) + nal_body(rng, rng.choice([0, 1, 2, 3, 13, 20, 300])))
             key = b"".join(parts)
         elif codec == "av1":
             key = av1_keyframe_from(rng, dist)
@@ -1126,6 +1145,15 @@ def gen_C19(rng, tier, dist):
     for _ in range(n):
         cfg, ops, info = gen_history(rng, dist)
         out.append(pcase(cfg, ops))
+    # AV1 streams of every profile / level / tier / bit depth / subsampling (the configuration record's
+    # fields must equal those of the sequence header it carries), progressive and fragmented
+    for _ in range(120 if tier == "quick" else 6000):
+        k = av1_keyframe_from(rng, dist)
+        out.append(pcase(cfg_str(codec="av1", fast=rng.randrange(2)), ["wv %s %s 1" % (f64bits(0.0), hx(k)), "fins"]))
+        payload, fields = av1_seq_header(rng, dist)
+        out.append(fcase("w=640 h=480 via=builder codec=av1 av1=%s" % hx(bytes([0x0A]) + leb128(len(payload)) + payload),
+                         ["finit", "fw 0 0 aabb 1", "fflush"]))
+        dist["av1_syntax_headers"] += 2
     for _ in range(150 if tier == "quick" else 5000):
         out.append(fcase(frag_cfg(rng, dist), ["finit", "fw 0 0 aabb 1", "fw 3000 3000 cc 0", "fflush"]))
     return out
@@ -1224,6 +1252,24 @@ def gen_C12(rng, tier, dist):
             for fn in XFUNCS_BYTES:
                 out.append("X %s %s" % (fn, hx(bytes(tup))))
     dist["raw_exhaustive_len<=%d" % L] = len(out)
+    # --- first key frames whose parameter sets are only a few bytes long, muxed and FINISHED (the
+    #     configuration records are built at finish, long after the frame was accepted)
+    r7 = random.Random(77)
+    for fast in (0, 1):
+        for a in range(0, 6):
+            for b in range(0, 4):
+                k = SC4 + bytes([0x67]) + nal_body(r7, a) + SC3 + bytes([0x68]) + nal_body(r7, b) + SC4 + bytes([0x65, 0x88, 0x84])
+                out.append(pcase(cfg_str(codec="h264", fast=fast), ["wv %s %s 1" % (f64bits(0.0), hx(k)), "fins"]))
+                out.append(pcase(cfg_str(codec="h264", fast=fast), ["ev %s 33" % hx(k), "ev %s 33" % hx(SC3 + bytes([0x41, 0x9A])), "fins"]))
+        for a in range(0, 5):
+            for b in range(0, 3):
+                for c in range(0, 3):
+                    k = SC4 + bytes([0x40, 1]) + nal_body(r7, a) + SC4 + bytes([0x42, 1]) + nal_body(r7, b) + SC3 + bytes([0x44, 1]) + nal_body(r7, c) + SC3 + bytes([0x26, 1, 0xAF])
+                    out.append(pcase(cfg_str(codec="h265", fast=fast), ["wv %s %s 1" % (f64bits(0.0), hx(k)), "fins"]))
+        # one-byte NAL units (header only) everywhere
+        out.append(pcase(cfg_str(codec="h264", fast=fast), ["wv %s %s 1" % (f64bits(0.0), hx(SC3 + b"\x67" + SC3 + b"\x68" + SC3 + b"\x65")), "fins"]))
+        out.append(pcase(cfg_str(codec="h265", fast=fast), ["wv %s %s 1" % (f64bits(0.0), hx(SC3 + b"\x40" + SC3 + b"\x42" + SC3 + b"\x44" + SC3 + b"\x26")), "fins"]))
+    dist["short_parameter_sets_finished"] += 2 * (6 * 4 * 2 + 5 * 3 * 3 + 2)
     # --- structured stream: valid inputs truncated at every length / bit-flipped / extreme literals
     seeds = []
     for codec in VCODECS:
@@ -1364,9 +1410,9 @@ def gen_C17(rng, tier, dist):
         # short writes and Interrupted (never an error, never Ok(0)) must not change a byte or a reply
         short = ["sink=cap:%d" % rng.choice([1, 2, 7, 64]),
                  "sink=cap:%d+intr:%s" % (rng.choice([1, 5, 4096]), ",".join(str(rng.randrange(0, 1500)) for _ in range(4)))]
-        for variant in ["", "sinkty=vec", "sinkty=cursor", "sinkty=file", "path=set"] + short:
+        for variant in ["", "sinkty=vec", "sinkty=cursor", "sinkty=file", "path=set", "path=setonly", "path=setrev"] + short:
             out.append(pcase(cfg + " grp=%d" % g + (" " + variant if variant else ""), ops))
-        dist["variants"] += 7
+        dist["variants"] += 9
         dist["short_write_sinks"] += 2
     # convenience vs explicit: encode_video/encode_audio with accumulated f64 time == write at that time
     for _ in range(80 if tier == "quick" else 5000):
